@@ -123,7 +123,7 @@ def main(chk, replay_file):
     uw = 4
     wl = ["--unwindset", "h_reset_window.0:%d" % (info["RESET_END"] + 2)]
     jobs = [
-        J("reset_window.contract", unit, "h_reset_window", unwind=uw, flags=wl, timeout=900, stop_on_fail=True, functions=["hextb run()", "handleSyscall", "Vhex_eval_step"], note="every power-on state x every memory content"),
+        J("reset_window.contract", unit, "h_reset_window", unwind=uw, flags=wl, timeout=1500, stop_on_fail=True, mem_est=6, functions=["hextb run()", "handleSyscall", "Vhex_eval_step"], note="every power-on state x every memory content"),
         J("reset_window.canary", unit, "h_reset_window", unwind=uw, flags=wl, defines=["CANARY"], kind="canary", checks=[]),
         J("reset_window.cover", unit, "h_reset_window", unwind=uw, flags=wl, defines=["COVER"], kind="cover", cover=True, checks=[]),
     ]
